@@ -5,6 +5,7 @@ import (
 	"encoding/json"
 	"flag"
 	"fmt"
+	"hash/fnv"
 	"os"
 	"os/exec"
 	"path/filepath"
@@ -116,13 +117,18 @@ var expectedRefactorAlarms = map[string]string{
 	"X05-5": "handshake errors through formatting helpers",
 	// a known function changes its signature (parameters bundled in a new struct)
 	"U07-4": "cleanSequence takes a struct",
-	// round Y, "how values reach their use" (DESIGN §7): 40 of 50 are silent; what still alarms, by kind —
+	// round Y, "how values reach their use" (DESIGN §7): 43 of 50 are silent; what still alarms, by kind —
 	// a constant, a field or a buffer that a rule reads at its use now arrives through the parameter of a helper or of the anchor itself
-	"Y01-2": "Max defaults through txMaxDefaults(n, idMask)", "Y06-1": "acknowledgements composed by appendAck(buf, type, id)", "Y06-2": "onPUBREL receives the payload",
-	"Y08-1": "four persisted publishes through publishPersisted(idSpace, head, out)", "Y08-2": "applySeqNoAndEnqueue receives the queue channel", "Y09-5": "cleanSequence receives the mask",
-	"Y02-2": "termCallbacks goroutines receive seqSem and queue", "Y03-2": "writeBuffersTo becomes a method that loads PauseTimeout",
+	"Y01-2": "Max defaults through txMaxDefaults(n, idMask)", "Y06-1": "acknowledgements composed by appendAck(buf, type, id)",
+	"Y08-1": "four persisted publishes through publishPersisted(idSpace, head, out)", "Y09-5": "cleanSequence receives the mask",
+	"Y03-2": "writeBuffersTo becomes a method that loads PauseTimeout",
 	// a condition hoisted into a bool local ahead of unrelated branches, or a decode loop driven by a flag
 	"Y01-5": "Will condition hoisted into hasWill", "Y04-3": "remaining-length decode as for more := true; more; {…}",
+	// round Z, error handling and exit structure (DESIGN §7): 47 of 50 are silent; what still alarms —
+	// a validation or an integrity test moved into a helper that returns only an error (the bound it establishes is no longer on the caller's path)
+	"Z01-3": "will topic validated by (*Config).willTopicCheck", "Z09-4": "size and checksum tests of decodeValue in valueIntegrity(buf) error",
+	// the decode loop driven by a flag once more
+	"Z04-5": "remaining-length decode with a more flag as loop condition",
 }
 
 func runCase(c stCase, repo, verif, self string) stResult {
@@ -241,6 +247,17 @@ func RunSelftest(prop, repo, verif string, par int) ([]stResult, error) {
 	for _, c := range cases {
 		switch {
 		case c.Property == "*" && prop != "":
+			// one property's thorough check runs a third of the negative controls
+			// (a fixed third: chosen by the control's name and the property's
+			// number); `selftest` without a property runs all of them against the
+			// union of all rules
+			h := fnv.New32a()
+			h.Write([]byte(c.ID))
+			pn := 0
+			fmt.Sscanf(strings.TrimPrefix(prop, "C"), "%d", &pn)
+			if int(h.Sum32()%3) != pn%3 {
+				continue
+			}
 			c.Property = prop
 			sel = append(sel, c)
 		case c.Property == "*":
